@@ -14,6 +14,7 @@ from ._helpers_rules_c import (
     both, call_nodes, calls_ending, calm, cut_edges, fin_quiet, must_pass, outcome, test_edges,
 )
 from ._helpers_str_l import contradicted, flag_aliases, implying
+from ._helpers_rob_a import helper_callers, normal_form
 from .c23 import commit_requires_active
 
 R = Registry(
@@ -37,6 +38,14 @@ R = Registry(
 
 ENG = "engine/base.py"
 FLAG = "self._is_disconnect"
+
+
+def _nf(ctx, f, *keep, alias="dotted"):
+    """Function (key or FuncInfo) in refactoring-robust normal form (extracted helpers inlined, single-assignment
+    locals resolved; see _helpers_rob_a).  `keep`: the callee names the rule recognises by name."""
+    if isinstance(f, str):
+        f = ctx.func(f)
+    return normal_form(ctx, f, keep=keep, alias=alias)
 
 
 def _snapshot_aliases(ctx, f, g, flag):
@@ -71,6 +80,22 @@ def _is_dialect_do(c: ast.Call) -> bool:
     return recv == "dialect" or recv.endswith(".dialect")
 
 
+def _wrapped(pm, c) -> bool:
+    """Is call `c` in the body of a try whose `except BaseException as e` calls self._handle_dbapi_exception(e, ...)?"""
+    for t, part in enclosing_try(pm, c):
+        if part != "body":
+            continue
+        for h in t.handlers:
+            tn = (dotted(h.type) or "") if h.type is not None else "BaseException"
+            if tn.split(".")[-1] != "BaseException" or not h.name:
+                continue
+            for hc in calls_in(ast.Module(body=h.body, type_ignores=[])):
+                if call_name(hc) == "self._handle_dbapi_exception" and hc.args \
+                        and isinstance(hc.args[0], ast.Name) and hc.args[0].id == h.name:
+                    return True
+    return False
+
+
 @R.rule("C27-R1", floor=20, template="T-GUARD",
         desc="every dialect.do_*() call inside class Connection sits in a try whose BaseException handler "
              "calls self._handle_dbapi_exception(e, ...); the unwrapped ones are a frozen, reasoned list")
@@ -89,23 +114,20 @@ def r1(ctx):
                 key = f"{m.key}:{c.func.attr}#{n}"
                 n += 1
             seen.add(key)
-            wrapped = False
-            for t, part in enclosing_try(pm, c):
-                if part != "body":
-                    continue
-                for h in t.handlers:
-                    tn = (dotted(h.type) or "") if h.type is not None else "BaseException"
-                    if tn.split(".")[-1] != "BaseException" or not h.name:
-                        continue
-                    for hc in calls_in(ast.Module(body=h.body, type_ignores=[])):
-                        if call_name(hc) == "self._handle_dbapi_exception" and hc.args \
-                                and isinstance(hc.args[0], ast.Name) and hc.args[0].id == h.name:
-                            wrapped = True
-                if wrapped:
-                    break
+            wrapped = _wrapped(pm, c)
+            via = ""
+            if not wrapped:
+                # the bare call may have been extracted into a private helper that is only called from
+                # inside such a try block
+                callers = helper_callers(ctx.index, m)
+                sites = [hc for ck in (callers or []) if ck != m.key and ck.split("::")[1].split(".")[0] == cls.name
+                         for hc in calls_in(ctx.index.func(ck).node, into_nested=True)
+                         if isinstance(hc.func, ast.Attribute) and hc.func.attr == m.name]
+                if sites and all(_wrapped(pm, hc) for hc in sites):
+                    wrapped, via = True, f" (at every call of the private helper {m.name})"
             loc = f"{m.module.path}:{c.lineno}"
             if wrapped:
-                ctx.ok(key, "try/except BaseException -> _handle_dbapi_exception(e, ...)")
+                ctx.ok(key, "try/except BaseException -> _handle_dbapi_exception(e, ...)" + via)
             elif key in UNWRAPPED_OK:
                 ctx.ok(key, "unwrapped by design: " + UNWRAPPED_OK[key], nontrivial=False)
             else:
@@ -122,7 +144,7 @@ def r1(ctx):
              "for non-disconnects; is_disconnect consulted only for DBAPI errors on an open connection; "
              "handle_error verdict copied back")
 def r2(ctx):
-    f = ctx.func(f"{ENG}::Connection._handle_dbapi_exception")
+    f = _nf(ctx, f"{ENG}::Connection._handle_dbapi_exception", "invalidate", "_invalidate", "is_disconnect", alias=None)
     g = ctx.cfg(f)
     inv = call_nodes(g, lambda nm, c: nm == "self.invalidate")
     pinv = call_nodes(g, lambda nm, c: nm.endswith("pool._invalidate"))
@@ -173,7 +195,7 @@ def r2(ctx):
               "(a handle_error listener could not keep the rest of the pool)",
               "pool._invalidate under the (listener-adjustable) invalidate_pool_on_disconnect flag", f.loc)
     # (d) is_disconnect consulted only for DBAPI errors on an open connection
-    pm = f.module.parents()
+    pm = f.pm
     isd = [c for c in calls_in(f.node) if (call_name(c) or "").endswith("dialect.is_disconnect")]
     ctx.require(isd, "dialect.is_disconnect() is not consulted in _handle_dbapi_exception")
     ok = True
@@ -211,7 +233,7 @@ def r2(ctx):
              "(_invalid_transaction() otherwise); Connection.invalidate invalidates the pooled connection "
              "and nulls _dbapi_connection")
 def r3(ctx):
-    f = ctx.func(f"{ENG}::Connection._revalidate_connection")
+    f = _nf(ctx, f"{ENG}::Connection._revalidate_connection", "raw_connection", "_invalid_transaction")
     g = ctx.cfg(f)
     raw = calls_ending(g, "raw_connection")
     ctx.require(raw, "no engine.raw_connection() in _revalidate_connection")
@@ -227,7 +249,7 @@ def r3(ctx):
     ctx.check(bool(pend) and bool(inv) and w is None and g.exit not in r, f.key + ":pending-raises",
               "with a pending transaction _revalidate_connection does not raise PendingRollbackError via _invalid_transaction()",
               "transaction pending -> _invalid_transaction() (NoReturn)", f.loc, w if pend and inv else None)
-    f = ctx.func(f"{ENG}::Connection.invalidate")
+    f = _nf(ctx, f"{ENG}::Connection.invalidate", "invalidate")
     g = ctx.cfg(f)
     null = [n for d, t, st in attr_stores(f.node) if d == "self._dbapi_connection" and isinstance(st, ast.Assign)
             and isinstance(st.value, ast.Constant) and st.value.value is None for n in g.nodes_for(st)]
@@ -316,6 +338,7 @@ def _is_default(st, default) -> bool:
              "just tested the value false (nested activations under the re-entrance guard are the outer call's)")
 def r5(ctx):
     sites = _transient_sites(ctx)
+    sites = [(_nf(ctx, f, "invalidate", "_invalidate", "is_disconnect", alias=None), attr, default) for f, attr, default in sites]
     for f, attr, default in sites:
         ctx.functions_analysed.add(f.key)
         flag = f"self.{attr}"
